@@ -709,6 +709,22 @@ func init() {
 					}
 				}
 				x.errorf("Unmarshal: encoded value sort %s does not match destination at %s", src.V.Sort, c.Pos)
+			case *Term:
+				if src.kind == tUF && src.Op == "any_bytes" && cur != nil {
+					// bytes taken from a protobuf Any: decode to the packed value (A-CODEC)
+					x.store(st, pv, UF("any_val<"+cur.Sort.Name+">", cur.Sort, src.Args[0]))
+					break
+				}
+				if cur != nil {
+					nv := x.freshTerm("decoded", cur.Sort)
+					st.assume(TypeInv(nv, pv.Obj.typ, 0))
+					x.store(st, pv, nv)
+				}
+				if must {
+					x.panicSite(f, st, x.freshTerm("unmarshal_fails", SBool), "MustUnmarshal of foreign bytes at "+c.Pos)
+				} else {
+					e = x.freshTerm("unmarshalerr", SErr)
+				}
 			default:
 				// arbitrary bytes: result is unconstrained, may fail
 				if cur != nil {
